@@ -325,7 +325,7 @@ def _run_check(prop: str, tier: str, seed: int, replay_file: str | None = None, 
     work = [(modname, spec, derive_seed(seed, prop, i), tier, i) for i, spec in enumerate(specs)]
     budget = float(os.environ.get("VERIF_WATCHDOG_S", getattr(mod, "WATCHDOG_S", {}).get(tier, 3600)))
     if tier == "quick" and "VERIF_WATCHDOG_S" not in os.environ:
-        budget = min(budget, 900.0)
+        budget = min(budget, 2400.0)
     os.environ["VFW_SHARD_BUDGET"] = str(budget)
     results = []
     if jobs <= 1 or len(work) <= 1:
